@@ -40,6 +40,10 @@ func (k hty) coq() string {
 		return "(Datatypes.list Z)"
 	case hList:
 		return "llist"
+	case hIter: // heapiter.go
+		return "Iterator"
+	case hPred:
+		return "(Z -> Z -> bool)"
 	}
 	return "unit"
 }
@@ -114,6 +118,7 @@ type hfx struct {
 	retk  []func(base string) string // inside loops that contain `return`: how a returned value leaves the loop
 	wrote bool                       // the translation rebinds the receiver
 	local map[string]bool            // slices made by this function (the only ones that may be written)
+	iter  *hiterInfo                 // non-nil: a method of a list ITERATOR is being translated (heapiter.go)
 }
 
 type hcont func(e henv) string
@@ -225,6 +230,9 @@ func (h *hfx) typeOf(x ast.Expr, variadic bool) hty {
 			}
 		}
 	}
+	if t, ok := h.iterTypeOf(x); ok { // heapiter.go
+		return t
+	}
 	h.bad(x.Pos(), "type %T in a pointer-mode file (int, bool, T, []T, *element[T], *List[T] only)", x)
 	return hInt
 }
@@ -259,7 +267,16 @@ func (h *hfx) expr(x ast.Expr, e henv) (string, string, hty) {
 			return "", vname(n.Name), vi.ty
 		}
 		h.bad(n.Pos(), "identifier %s", n.Name)
+	case *ast.CompositeLit:
+		if s, ok := h.iterLit(n, e); ok { // heapiter.go
+			return "", s, hIter
+		}
 	case *ast.UnaryExpr:
+		if cl, isLit := n.X.(*ast.CompositeLit); isLit && n.Op == token.AND {
+			if s, ok := h.iterLit(cl, e); ok { // heapiter.go
+				return "", s, hIter
+			}
+		}
 		b, s, t := h.expr(n.X, e)
 		switch {
 		case n.Op == token.SUB && t == hInt:
@@ -269,11 +286,14 @@ func (h *hfx) expr(x ast.Expr, e henv) (string, string, hty) {
 		}
 		h.bad(n.Pos(), "unary operator %s", n.Op)
 	case *ast.SelectorExpr:
+		if s, t, ok := h.iterSelect(n, e); ok { // heapiter.go
+			return "", s, t
+		}
 		b, s, t := h.expr(n.X, e)
 		switch t {
 		case hList:
 			id, ok := n.X.(*ast.Ident)
-			if !ok || id.Name != h.fn.recv {
+			if (!ok || id.Name != h.fn.recv) && !h.isIterList(n.X) {
 				h.bad(n.Pos(), "field of a list that is not the receiver")
 			}
 			switch n.Sel.Name {
@@ -286,7 +306,7 @@ func (h *hfx) expr(x ast.Expr, e henv) (string, string, hty) {
 			}
 		case hPtr: // p.field: through the heap; nil / unallocated = failure
 			c := h.fresh("c")
-			b += "do " + c + " <- deref (lheap " + vname(h.fn.recv) + ") " + s + ";\n"
+			b += "do " + c + " <- deref (lheap " + h.lv() + ") " + s + ";\n"
 			switch n.Sel.Name {
 			case "value":
 				return b, "(cval " + c + ")", hElem
@@ -402,6 +422,9 @@ func (h *hfx) expr(x ast.Expr, e henv) (string, string, hty) {
 				return b2 + "do " + r + " <- GoHeap.hs_make " + l + " " + c + ";\n", r, hSlice
 			}
 		}
+		if s, ok := h.predCall(n, e); ok { // heapiter.go: f(index, value)
+			return s[0], s[1], hBool
+		}
 		// a method of the receiver with one result, in expression position
 		b, call, fn := h.methodCall(n, e)
 		if fn.writes || len(fn.results) != 1 {
@@ -416,6 +439,9 @@ func (h *hfx) expr(x ast.Expr, e henv) (string, string, hty) {
 
 // recv.M(args): binds of the arguments, the application, the callee
 func (h *hfx) methodCall(c *ast.CallExpr, e henv) (string, string, *hfunc) {
+	if b, s, fn, ok := h.iterCall(c, e); ok { // heapiter.go
+		return b, s, fn
+	}
 	sel, ok := c.Fun.(*ast.SelectorExpr)
 	if !ok {
 		h.bad(c.Pos(), "call of something that is not a method of the receiver")
@@ -541,8 +567,14 @@ func (h *hfx) assign(lhs ast.Expr, val string, tv hty, define bool, e henv) (str
 		h.rebind(l.Name, e)
 		return "let " + vname(l.Name) + " := " + val + " in\n", e
 	case *ast.SelectorExpr:
+		if p, e2, ok := h.iterAssign(l, val, tv, e); ok { // heapiter.go
+			return p, e2
+		}
 		b, p, tp := h.expr(l.X, e)
 		rv := vname(h.fn.recv)
+		if h.iter != nil {
+			h.bad(l.Pos(), "assignment through a pointer / to a list field in an iterator file (iterators only read the list)")
+		}
 		switch tp {
 		case hList:
 			setter := map[string]string{"first": "set_first", "last": "set_last", "size": "set_size"}[l.Sel.Name]
@@ -661,6 +693,9 @@ func (h *hfx) stmts(ss []ast.Stmt, e henv, k hcont) string {
 				vals = append(vals, vname(nm))
 			}
 			return h.ret(vals)
+		}
+		if s, ok := h.retWritingCall(n, e); ok { // heapiter.go: return iterator.Next()
+			return s
 		}
 		if len(n.Results) != len(h.fn.results) {
 			h.bad(n.Pos(), "return with %d values", len(n.Results))
@@ -1077,7 +1112,14 @@ func (h *hfx) forStmt(n *ast.ForStmt, e henv, next hcont) string {
 	h.nloop++
 	fname := h.fn.coq + "_loop" + strconv.Itoa(h.nloop)
 	eB := henv{vars: eL.vars, depth: eL.depth + 1}
-	bc, c, tc := h.expr(n.Cond, eL)
+	var bc, c string
+	var tc hty
+	condWrites := false
+	if cb, cc, ok := h.iterCond(n, eL); ok { // heapiter.go: for iterator.Next() { ... }
+		bc, c, tc, condWrites = cb, cc, hBool, true
+	} else {
+		bc, c, tc = h.expr(n.Cond, eL)
+	}
 	if tc != hBool {
 		h.bad(n.Cond.Pos(), "loop condition")
 	}
@@ -1089,6 +1131,9 @@ func (h *hfx) forStmt(n *ast.ForStmt, e henv, next hcont) string {
 	l := &hloop{h: h, e: e, hasRet: hHasReturn(n.Body)}
 	rec := "(" + fname + " fuel' " + strings.Join(args, " ") + ")"
 	b := l.build(true, func(kk hcont) string {
+		if condWrites { // the condition assigns the receiver (iterator): it is part of what the loop yields
+			h.rebind(h.fn.recv, eB)
+		}
 		return h.stmts(n.Body.List, eB, func(e2 henv) string {
 			// the post statement is outside the reach of `break`
 			saved := h.brk
@@ -1100,10 +1145,10 @@ func (h *hfx) forStmt(n *ast.ForStmt, e henv, next hcont) string {
 	}, rec)
 	h.aux = append(h.aux, "Fixpoint "+fname+" (fuel : nat) "+strings.Join(binders, " ")+" {struct fuel} : option "+l.resTy()+" :=\n"+
 		bc+"if "+c+"\nthen match fuel with\n  | O => None (* out of fuel *)\n  | S fuel' =>\n"+b+"\n  end\nelse "+l.normal()+".\n")
-	fuel := "(S (Z.to_nat (lsize " + vname(h.fn.recv) + ")))"
+	fuel := "(S (Z.to_nat (lsize " + h.lv() + ")))"
 	if cond, ok := n.Cond.(*ast.BinaryExpr); ok && cond.Op == token.NEQ && h.isNil(cond.Y, eL) {
 		if _, _, t := h.expr(cond.X, eL); t == hPtr {
-			fuel = "(S (lnext_addr " + vname(h.fn.recv) + "))"
+			fuel = "(S (lnext_addr " + h.lv() + "))"
 		}
 	}
 	return init + l.call(fname+" "+fuel+" "+strings.Join(args, " "), next)
@@ -1147,6 +1192,7 @@ func (h *hfx) countedLoop(n *ast.ForStmt, iv string, startX ast.Expr, bound stri
 // ---------------------------------------------------------------- the unit
 
 func (t *translator) heapUnit(u *unit) {
+	t.heapIterSetup(u) // heapiter.go: nothing unless the unit is the iterator of a list
 	funcs := map[string]*hfunc{}
 	var order []*hfunc
 	for _, d := range u.allDecls() {
@@ -1163,6 +1209,9 @@ func (t *translator) heapUnit(u *unit) {
 			continue
 		}
 		fn := &hfunc{name: name, coq: mangle(name), decl: fd}
+		if name == "Iterator" && heapIterOf[u] != nil {
+			fn.coq = "List_Iterator" // the record is called Iterator
+		}
 		funcs[name] = fn
 		order = append(order, fn)
 	}
@@ -1210,6 +1259,7 @@ func (t *translator) heapUnit(u *unit) {
 		}
 		u.Funcs = append(u.Funcs, &funcInfo{Unit: u, Name: fn.name, Coq: fn.coq, text: fn.text, Decl: fn.decl})
 	}
+	heapFuncsOf[u.Spec.Module] = funcs
 }
 
 // the two struct types must be exactly what the cells of Model/LinkedCells.v model: List{first, last *element[T];
@@ -1221,6 +1271,10 @@ func (t *translator) heapTypes(u *unit, gd *ast.GenDecl) {
 	}
 	for _, sp := range gd.Specs {
 		ts := sp.(*ast.TypeSpec)
+		if ts.Name.Name == "Iterator" && heapIterOf[u] != nil { // heapiter.go
+			t.heapIterType(u, ts)
+			continue
+		}
 		fields, ok := want[ts.Name.Name]
 		st, isStruct := ts.Type.(*ast.StructType)
 		if !ok || !isStruct {
@@ -1253,18 +1307,30 @@ func (t *translator) heapTypes(u *unit, gd *ast.GenDecl) {
 }
 
 func (t *translator) heapFunc(u *unit, fn *hfunc, funcs map[string]*hfunc) {
-	h := &hfx{t: t, u: u, fn: fn, funcs: funcs, local: map[string]bool{}}
+	h := &hfx{t: t, u: u, fn: fn, funcs: funcs, local: map[string]bool{}, iter: heapIterOf[u]}
 	fd := fn.decl
 	e := henv{vars: map[string]hvar{}}
 	var binders []string
+	recvTy := hList
 	if fd.Recv != nil {
 		rn, rt, _, ok := recvInfo(fd)
-		if !ok || rt != "List" {
-			t.unsupported(fd.Pos(), "receiver of %s", fn.name)
+		if ok && rt == "Iterator" && h.iter != nil { // heapiter.go: the iterator, and the list it walks as a parameter
+			recvTy = hIter
+			fn.recv = rn
+			e = e.with(rn, hIter)
+			binders = append(binders, "("+vname(rn)+" : Iterator)")
+			if h.iter.needs[fn.name] {
+				e = e.with("list", hList)
+				binders = append(binders, "(v_list : llist)")
+			}
+		} else {
+			if !ok || rt != "List" {
+				t.unsupported(fd.Pos(), "receiver of %s", fn.name)
+			}
+			fn.recv = rn
+			e = e.with(rn, hList)
+			binders = append(binders, "("+vname(rn)+" : llist)")
 		}
-		fn.recv = rn
-		e = e.with(rn, hList)
-		binders = append(binders, "("+vname(rn)+" : llist)")
 	}
 	for _, p := range fieldList(fd.Type.Params) {
 		ty := h.typeOf(p.typ, false)
@@ -1281,6 +1347,11 @@ func (t *translator) heapFunc(u *unit, fn *hfunc, funcs map[string]*hfunc) {
 			z := map[hty]string{hInt: "0", hElem: "0", hBool: "false", hPtr: "(@None nat)"}[ty]
 			e = e.with(r.name, ty)
 			pre += "let " + vname(r.name) + " := " + z + " in\n"
+		}
+	}
+	for _, p := range fn.params {
+		if p.name == "list" && recvTy == hIter {
+			t.unsupported(fd.Pos(), "parameter named list in an iterator method")
 		}
 	}
 	if fd.Recv == nil { // New: the result is the list built in a local variable
@@ -1335,7 +1406,7 @@ func (t *translator) heapFunc(u *unit, fn *hfunc, funcs map[string]*hfunc) {
 		resTy = "(" + strings.Join(rs, " * ") + ")"
 	}
 	if fn.writes {
-		resTy = "(llist * " + resTy + ")"
+		resTy = "(" + recvTy.coq() + " * " + resTy + ")"
 	}
 	h.resTy = resTy
 	k0 := func(e2 henv) string {
@@ -1382,6 +1453,7 @@ func (t *translator) emitHeap(u *unit) string {
 		fmt.Fprintf(&b, "   SKIPPED explicitly: %s -- %s\n", s[0], s[1])
 	}
 	fmt.Fprintf(&b, "*)\nFrom Coq Require Import String.\nFrom Coq Require Import ZArith List Bool.\nFrom Gods Require Import Spec.SeqSpec Model.LinkedCells.\nFrom GodsGenProofs Require GoHeap. (* hand-written: checked slice reads / writes / make, /verif/srcgen/coq/GoHeap.v *)\nImport ListNotations.\nLocal Open Scope Z_scope.\n\n")
+	b.WriteString(t.heapIterPrelude(u)) // heapiter.go: the iterator record (empty for the lists themselves)
 	for _, fi := range u.Funcs {
 		b.WriteString(fi.text)
 		b.WriteString("\n")
